@@ -726,7 +726,11 @@ def crop_vs_full(ctx):
         if not os.path.exists(path):
             ctx.failed_obligations.append(f"image missing: {path}")
             continue
-        out, rc, err = ctx.run_impl("c06", [f"open {path}"], args=(FIXTURE,))
+        # a third of the images with 32-bit Modular buffers forced (the render handles of that path are rebuilt
+        # by every region request just like the narrow ones)
+        opener = "openw" if rng.random() < 0.34 else "open"
+        ctx.count("session:" + ("forced-wide-buffers" if opener == "openw" else "default-buffers"))
+        out, rc, err = ctx.run_impl("c06", [f"{opener} {path}"], args=(FIXTURE,))
         if rc != 0 or not out or not out[0].startswith("ok "):
             ctx.violation("full-render-fails", f"{out[:1]} {err[-200:]}", {"lines": [f"open {path}"]}, key="c06:open")
             continue
@@ -738,7 +742,7 @@ def crop_vs_full(ctx):
             ctx.count(f"frames decoded {'in full (palette/squeeze)' if forced == 1 else 'by region'}")
             ex += [x0, x0 + fw]; ey += [y0, y0 + fh]
         bx, by = boundary_points(W, ex), boundary_points(H, ey)
-        lines = [f"open {path}"]
+        lines = [f"{opener} {path}"]
         hist, hists, probes = [], [], []     # hists[i] = requests since the last `fresh` up to line i
         for _ in range(n):
             if rng.random() < 0.5:
@@ -776,14 +780,14 @@ def crop_vs_full(ctx):
             ctx._c06_shrunk = shrunk + 1
             for k in (range(len(h) - 1, -1, -1) if shrunk < 3 else []):
                 cand = h[k:]
-                o2, _, _ = ctx.run_impl("c06", [f"open {path}", "fresh"] + cand, args=(FIXTURE,))
+                o2, _, _ = ctx.run_impl("c06", [f"{opener} {path}", "fresh"] + cand, args=(FIXTURE,))
                 if len(o2) == len(cand) + 2 and not o2[-1].startswith("ok"):
                     replay, o = cand, o2[-1]
                     break
             ctx.violation("crop-differs-from-full-render", o,
-                          {"image": path, "requests": replay, "result": o, "plan": plan_text,
+                          {"image": path, "opener": opener, "requests": replay, "result": o, "plan": plan_text,
                            "image_hex": open(path, "rb").read().hex() if plan_text else None,
-                           "how": f"printf 'open {path}\\nfresh\\n<requests>\\n' | harness/target/debug/c06 {FIXTURE}"},
+                           "how": f"printf '{opener} {path}\\nfresh\\n<requests>\\n' | harness/target/debug/c06 {FIXTURE}"},
                           key=f"c06:crop:{os.path.basename(path) if not plan_text else 'encoder-image'}:{o.split()[0]}")
         ctx.sample({"image": os.path.basename(path), "requests": lines[1:6], "results": out[1:6]})
 
@@ -792,7 +796,7 @@ def run(ctx):
     if getattr(ctx, "replay", None):
         body = json.load(open(ctx.replay))
         rp = body.get("replay", {})
-        ls = rp.get("lines") or ([f"open {rp['image']}", "fresh"] + rp.get("requests", []))
+        ls = rp.get("lines") or ([f"{rp.get('opener', 'open')} {rp['image']}", "fresh"] + rp.get("requests", []))
         ctx.cargo_build(["c06"])
         out, rc, err = ctx.run_impl("c06", ls, args=(FIXTURE,))
         for l, o in zip(ls, out):
